@@ -337,7 +337,9 @@ def check_C18(work, prop, tier, seed, t0):
     kinds = [("alpha/string", "random"), ("uint32", "random"), ("float64", "random"), ("collation/string/und", "text"), ("compound/u8+str", "tuple"),
              ("alpha/bytes", "vlong"), ("collation/bytes/und", "text"),
              # sort keys beyond the collator buffer's 4 KiB inline array: the stored copy must be the tree's own
-             ("collation/string/und", "textlong")]
+             ("collation/string/und", "textlong"),
+             # a full 16-slot node losing children from its upper half
+             ("uint8", "fan18")]
     if not q:
         kinds += [("alpha/bytes", "long"), ("int64", "random"), ("int8", "fan1"), ("float32", "random"), ("collation/bytes/sv", "text"),
                   ("collation/runes/und", "text"), ("uint8", "fan1")]
